@@ -15,5 +15,10 @@ def check(ctx):
     facts = ctx.facts("E")
     provrules.rule_push_child(ctx, facts, "R1")
     provrules.rule_local_converters_agree(ctx, facts, "R2")
+    from .. import collector
+    c = collector.Collector(ctx, facts)
+    if c.need("R2"):
+        collector.rule_stale_isolated(ctx, c, "R2")
+        collector.rule_danglings_arg(ctx, c, "R2")
     provrules.rule_open_spans(ctx, facts, "R3")
     provrules.rule_forest_immutable(ctx, facts, "R4")
